@@ -32,7 +32,10 @@ RULE = ("one PRNG (VERIF_SEED) drives everything.  ad: every integer number type
         "pair of different input kinds (plus some triples) in ONE hdfimport command; many: a file of 45 objects "
         "(hdiff's object table grows at 21 and 41) with element changes around each growth point, both orders, and "
         "the hdiff -b object table; large: a Vdata read by hdp in several pieces with a shorter last one, an image and "
-        "an SDS just above the tools' 1 MiB buffers. "
+        "an SDS just above the tools' 1 MiB buffers; mixed: SD/V objects followed by DF24 / DFR8 rasters (same ref "
+        "under different tags), every object changed in turn; fields: hdp dumpvd -f over several Vdatas with partly "
+        "shared field names, every 2-subset of the name pool; hdfimport tokens in every spelling (zero-padded, "
+        "signed, exponent form); SDS attribute added / removed, Vdata record appended / field renamed. "
         "A case is non-trivial when it lies in the property's domain (comparable objects, in-range values, "
         "NaN-free floats) and the tool ran; distinct by content")
 TRUSTED = ["Coq 8.16.1 kernel (vm_compute only for closed witnesses and finite tables)",
@@ -60,6 +63,8 @@ INT_RANGE = {20: (-128, 127), 21: (0, 255), 22: (-32768, 32767), 23: (0, 65535),
 INT_TYPES = [20, 21, 22, 23, 24, 25]
 FLOAT_TYPES = [5, 6]
 NUM_TYPES = INT_TYPES + FLOAT_TYPES
+FIELD_POOL = ["fa", "fb", "fc", "fd", "fe"]
+SIG_IL = "df24-storage-interlace:GRreadimage-returns-storage-order"
 DFK_SIZE = {3: 1, 4: 1, 20: 1, 21: 1, 22: 2, 23: 2, 24: 4, 25: 4, 5: 4, 6: 8}
 SIG_STRIP = "sds-above-1MiB:nfound-of-last-strip-only"
 SIG_SINGLE = "object-in-one-file-only:listed-by-match-but-not-counted"
@@ -188,9 +193,11 @@ def gen_file(r, idx):
         xd, yd = r.randrange(1, 5), r.randrange(1, 5)
         objs.append({"k": "R", "name": "img%d_%d" % (idx, k), "nt": nt, "nc": nc, "xd": xd, "yd": yd,
                      "vals": [rand_val(nt, r) for _ in range(xd * yd * nc)]})
-    for k in range(r.randrange(0, 3)):
-        nf = r.randrange(1, 4)
-        fields = [("f%d" % j, flavoured(r.choice(NUM_TYPES), r), r.randrange(1, 3)) for j in range(nf)]
+    for k in range(r.randrange(1, 4)):
+        nf = r.randrange(1, 5)
+        # field names from a small shared pool, so that a -f selection matches different numbers of fields in
+        # different Vdatas of one file
+        fields = [(nm, flavoured(r.choice(NUM_TYPES), r), r.randrange(1, 3)) for nm in r.sample(FIELD_POOL, nf)]
         nrec = r.randrange(1, 5)
         vals = []
         for _ in range(nrec):
@@ -221,6 +228,10 @@ def desc_text(f):
             out.append("V %s %d %d %s %d %s" % (o["name"], o["nrec"], len(o["fields"]),
                                                  " ".join("%s %d %d" % fl for fl in o["fields"]), len(o["vals"]),
                                                  " ".join(map(str, o["vals"]))))
+        elif o["k"] == "D":
+            out.append("D %d %d %d %d %s" % (o["il"], o["xd"], o["yd"], len(o["vals"]), " ".join(map(str, o["vals"]))))
+        elif o["k"] == "B":
+            out.append("B %d %d %d %s" % (o["xd"], o["yd"], len(o["vals"]), " ".join(map(str, o["vals"]))))
         else:
             out.append("E %s" % o["name"])
     return "\n".join(" ".join(l.split()) for l in out) + "\n"
@@ -265,6 +276,27 @@ def mutations(f, r, idx):
         g = clone(f)
         g["gattrs"][ai]["vals"][p] = nv
         out.append(("attr-G", "global %s[%d] %d -> %d" % (a["name"], p, a["vals"][p], nv), g, None))
+    # SDS attribute appended / removed, Vdata record appended, Vdata field renamed (header differences)
+    for oi, o in enumerate(f["objs"]):
+        if o["k"] == "S":
+            g = clone(f)
+            g["objs"][oi]["attrs"].append(gen_attr(r, "newat%d" % idx))
+            out.append(("attr-added-S", "%s: attribute appended" % o["name"], g, None))
+            if o["attrs"]:
+                g = clone(f)
+                del g["objs"][oi]["attrs"][r.randrange(len(o["attrs"]))]
+                out.append(("attr-removed-S", "%s: attribute removed" % o["name"], g, None))
+        if o["k"] == "V":
+            g = clone(f)
+            g["objs"][oi]["nrec"] += 1
+            for (_, nt, od) in o["fields"]:
+                g["objs"][oi]["vals"] += [rand_val(nt, r) for _ in range(od)]
+            out.append(("header-V-record", "%s: record appended" % o["name"], g, None))
+            g = clone(f)
+            fl = list(g["objs"][oi]["fields"])
+            fl[0] = ("zz", fl[0][1], fl[0][2])
+            g["objs"][oi]["fields"] = fl
+            out.append(("header-V-field", "%s: first field renamed" % o["name"], g, None))
     # global attribute appended / prepended / removed (first, last)
     for where in ("append", "prepend"):
         g = clone(f)
@@ -497,7 +529,7 @@ def parse_match_table(out):
                 break
             name = l[15:].strip() if len(l) > 15 else l.split()[-1]
             tbl.append(("x" if l[4:5] == "x" else "-") + ("x" if l[11:12] == "x" else "-") + ":" + name)
-    return " ".join(tbl)
+    return "|".join(tbl)
 
 
 def parse_object_table(out):
@@ -514,10 +546,10 @@ def parse_object_table(out):
                 continue
             tk = l.split()
             if len(tk) >= 3 and tk[0].lstrip("-").isdigit():
-                res.append("%s:%s" % (tk[0], tk[2]))
+                res.append("%s:%s" % (tk[0], " ".join(tk[2:])))
             else:
                 break
-    return " ".join(res)
+    return "|".join(res)
 
 
 def hd_record(kind, what, d1, d2, extra=""):
@@ -548,9 +580,9 @@ def check_pair(env, ctx, kind, what, t1, t2, st, sdspos=None, files=None):
         (d1, h1), (d2, h2) = files
     ms = model_lines(env, "hd", "%s %s\n" % (d1, d2))[0]
     parts = [x.strip() for x in ms.split(";")]
-    s_exit, m_exit, m_tbl = parts[0].split()[1], parts[1].split()[1], " ".join(parts[2].split()[1:])
-    verbose = kind.startswith(("added", "removed", "same", "many"))
-    m_tags = " ".join(parts[4].split()[1:]) if len(parts) > 4 else None
+    s_exit, m_exit, m_tbl = parts[0].split()[1], parts[1].split()[1], parts[2][2:].strip()
+    verbose = kind.startswith(("added", "removed", "same", "many", "mixed"))
+    m_tags = parts[4][2:].strip() if len(parts) > 4 else None
     rc, out, err = run_pair(env, h1, h2, verbose)
     st["runs"] += 1
     st["kinds"][kind] = st["kinds"].get(kind, 0) + 1
@@ -576,7 +608,7 @@ def check_pair(env, ctx, kind, what, t1, t2, st, sdspos=None, files=None):
     if verbose and m_tags is not None:
         r_tags = parse_object_table(out)
         st["tables_checked"] = st.get("tables_checked", 0) + 1
-        st["max_table_entries"] = max(st.get("max_table_entries", 0), len(r_tags.split()))
+        st["max_table_entries"] = max(st.get("max_table_entries", 0), len(r_tags.split("|")))
         if r_tags != m_tags:
             # the object table itself is wrong (tags are what diff() dispatches on)
             soft(ctx, "object table of hdiff -b (tag:name per entry) differs from dtable_build",
@@ -631,7 +663,7 @@ def check_hd(env, ctx):
                 seen[mt[0]] = seen.get(mt[0], 0) + 1
                 if seen[mt[0]] <= 2:
                     keep.append(mt)
-            muts = keep[:26]
+            muts = keep[:34]
         for kind, what, g, pos in muts:
             tg = desc_text(g)
             other = env.mk(tg)
@@ -652,7 +684,7 @@ def check_hd(env, ctx):
 # ---- many objects (object-table growth) ------------------------------------------------------------
 
 def list_order(objs):
-    rank = {"E": 0, "R": 1, "S": 2, "V": 3}
+    rank = {"E": 0, "R": 1, "D": 1, "B": 1, "S": 2, "V": 3}
     return sorted(range(len(objs)), key=lambda i: (rank[objs[i]["k"]], i))
 
 
@@ -705,6 +737,178 @@ def check_many(env, ctx):
             if len(ctx.violations) >= 4:
                 break
     ctx.corr("hdiff-many-objects~dtable_build", **st)
+
+
+# ---- files mixing interfaces: equal reference numbers under different tags ---------------------------------
+
+def check_mixed(env, ctx):
+    """SDSs / Vdatas created first, then 24-bit and 8-bit rasters added with DF24addimage / DFR8addimage: their refs
+    come from Htagnewref (per tag), so an image and an SDS carry the same ref.  Every object must still be listed,
+    compared and dumped."""
+    r = ctx.rng
+    st = {"files": 0, "runs": 0, "kinds": {}, "positions_checked": 0, "raster_dumps": 0}
+    for idx in range(2 if ctx.tier == "quick" else 12):
+        objs = []
+        for k in range(r.randrange(1, 4)):
+            nt = flavoured(r.choice(NUM_TYPES), r)
+            dims = [r.randrange(1, 4), r.randrange(1, 4)]
+            objs.append({"k": "S", "name": "mx%d_%d" % (idx, k), "nt": nt, "dims": dims,
+                         "vals": [rand_val(nt, r) for _ in range(dims[0] * dims[1])],
+                         "attrs": [gen_attr(r, "at%d" % j) for j in range(r.randrange(0, 2))]})
+        if r.randrange(2):
+            objs.append({"k": "V", "name": "mxv%d" % idx, "nrec": 2, "fields": [("fa", 24, 1)], "vals": [1, 2]})
+        nras = 0
+        for k in range(r.randrange(2, 4)):
+            xd, yd = r.randrange(1, 4), r.randrange(2, 4)
+            objs.append({"k": "D", "name": "Raster Image #%d" % nras, "il": 0, "xd": xd, "yd": yd, "nt": 3,
+                         "vals": [r.randrange(256) for _ in range(xd * yd * 3)]})
+            nras += 1
+        if r.randrange(2):
+            xd, yd = r.randrange(1, 4), r.randrange(1, 4)
+            objs.append({"k": "B", "name": "Raster Image #%d" % nras, "xd": xd, "yd": yd, "nt": 3,
+                         "vals": [r.randrange(256) for _ in range(xd * yd)]})
+            nras += 1
+        f = {"gattrs": [], "objs": objs}
+        t = desc_text(f)
+        base = env.mk(t)
+        st["files"] += 1
+        check_pair(env, ctx, "mixed-same", "F vs F", t, t, st, files=(base, base))
+        for oi, o in enumerate(objs):
+            if not o.get("vals"):
+                continue
+            tl = [o["nt"]] * len(o["vals"]) if o["k"] != "V" else [24] * len(o["vals"])
+            p = r.randrange(len(o["vals"]))
+            nv = other_vals(tl[p] if o["k"] in "SV" else 21, o["vals"][p], r)[0]
+            g = clone(f)
+            g["objs"][oi]["vals"][p] = nv
+            tg = desc_text(g)
+            other = env.mk(tg)
+            what = "%s[%d] %d -> %d" % (o["name"], p, o["vals"][p], nv)
+            check_pair(env, ctx, "mixed-elem-" + o["k"], what, t, tg, st, files=(base, other))
+            check_pair(env, ctx, "mixed-elem-" + o["k"] + "/swapped", what, tg, t, st, files=(other, base))
+            if o["k"] == "S" and o["attrs"]:
+                g = clone(f)
+                a = g["objs"][oi]["attrs"][0]
+                a["vals"][0] = (r.choice(other_vals(a["nt"], a["vals"][0], r)) if a["nt"] != 4 else 97 + (a["vals"][0] - 96) % 26)
+                tg = desc_text(g)
+                other = env.mk(tg)
+                check_pair(env, ctx, "mixed-attr-S", "%s:%s" % (o["name"], a["name"]), t, tg, st, files=(base, other))
+            if len(ctx.violations) >= 4:
+                break
+        # the rasters, dumped by index, show the values the GR interface returns
+        rc, api, err = env.run([env.exe, "rd", base[0], base[1]])
+        ras = [l.split() for l in api.splitlines() if l.startswith("R ")]
+        for k, tk in enumerate(ras):
+            rc, out, err = env.run([env.hdp, "dumpgr", "-d", "-i", str(k), base[1]])
+            want = [str(v) for v in map(int, tk[7:])]
+            st["raster_dumps"] += 1
+            ctx.case(("mixed-dump", t, k), True)
+            if crashed(rc) or out.split() != want:
+                ctx.violation("hdp dumpgr -i %d of a DF24/DFR8 raster differs from the values the GR interface returns" % k,
+                              "DUMP\n%s# hdp: %s\n# API: %s\n" % (t, " ".join(out.split())[:600], " ".join(want)[:600]), found=True)
+        if len(ctx.violations) >= 4:
+            break
+    ctx.corr("mixed-interfaces(ref-collisions)", **st)
+
+
+def check_interlace(env, ctx):
+    """the same 24-bit image stored with pixel and with scan-line interlace: equal content.  GRreadimage does not
+    convert from a non-pixel storage interlace (mfgr.c), hdiff relies on it: known finding."""
+    vals = list(range(1, 2 * 3 * 3 + 1))
+    t0 = "D 0 2 3 18 %s\n" % " ".join(map(str, vals))
+    t1 = "D 1 2 3 18 %s\n" % " ".join(map(str, vals))
+    (d0, h0), (d1, h1) = env.mk(t0), env.mk(t1)
+    rc, out, err = run_pair(env, h0, h1)
+    api = env.run([env.exe, "rd", d1, h1])[1].split()
+    ctx.case(("interlace",), True)
+    ctx.corr("df24-storage-interlace", exit=rc, api_returns_storage_order=(list(map(int, api[7:])) != vals))
+    if rc != 0:
+        sig = SIG_IL if (rc == 1 and list(map(int, api[7:])) != vals) else None
+        ctx.violation("hdiff exit %d for one 24-bit image stored with two interlaces" % rc,
+                      "HD interlace | same image, DF24setil 0 vs 1\n%s--\n%s" % (t0, t1), found=True, signature=sig)
+
+
+# ---- hdp dumpvd -f : field selection over several Vdatas ------------------------------------------------
+
+def check_fields(env, ctx, dumps):
+    r = ctx.rng
+    st = {"commands": 0, "vdatas": 0, "selections_matching_different_counts": 0}
+    # a directed family: three Vdatas with partly shared field names, every 2-subset (and some 3-subsets) of the
+    # names as selection -> later Vdatas matching fewer, more, the same number of fields than earlier ones
+    layouts = [["fa", "fb", "fc"], ["fa", "fd", "fe"], ["fe", "fb"]]
+    r.shuffle(layouts)
+    dobjs = []
+    for k, names in enumerate(layouts):
+        names = list(names)
+        if r.randrange(2):
+            names.reverse()
+        fields = [(nm, flavoured(r.choice(NUM_TYPES), r), r.randrange(1, 3)) for nm in names]
+        vals = []
+        for _ in range(2):
+            for (_, nt, od) in fields:
+                vals += [rand_val(nt, r) for _ in range(od)]
+        dobjs.append({"k": "V", "name": "fsel%d" % k, "nrec": 2, "fields": fields, "vals": vals})
+    df = {"gattrs": [], "objs": dobjs}
+    dt = desc_text(df)
+    sels = [[a, b] for i, a in enumerate(FIELD_POOL) for b in FIELD_POOL[i + 1:]] + [r.sample(FIELD_POOL, 3) for _ in range(3)]
+    for x in sels:
+        r.shuffle(x)
+    work = [(df, dt, env.mk(dt), sels)] + [(f, t, fl, None) for f, t, fl in dumps]
+    for f, t, (d, h), fixed in work:
+        vds = [o for o in f["objs"] if o["k"] == "V"]
+        if not vds:
+            continue
+        rc, api, err = env.run([env.exe, "rd", d, h])
+        rows = {}
+        for l in api.splitlines():
+            tk = l.split()
+            if tk and tk[0] == "V":
+                nf = int(tk[3])
+                rows[tk[1]] = list(map(int, tk[5 + 3 * nf:]))
+        for sel in (fixed if fixed is not None else [r.sample(FIELD_POOL, r.randrange(1, 4)) for _ in range(3)]):
+            want, counts = [], set()
+            for o in vds:
+                cols, types, pos = [], [], 0
+                for (nm, nt, od) in o["fields"]:
+                    if nm in sel:
+                        cols += list(range(pos, pos + od))
+                        types += [nt] * od
+                    pos += od
+                counts.add(len([1 for (nm, _, _) in o["fields"] if nm in sel]))
+                vals = rows.get(o["name"], [])
+                for rec in range(o["nrec"]):
+                    want += [fmt_api(nt, vals[rec * pos + c]) for c, nt in zip(cols, types)]
+            ml = model_lines(env, "vdsel", "%s|%s\n" % (",".join(sel), "|".join(" ".join(nm for (nm, _, _) in o["fields"]) for o in vds)))[0]
+            mwant = []
+            for o, ix in zip(vds, ml[2:].split("|")):
+                ix = [int(x) for x in ix.split()]
+                offs, pos = [], 0
+                for (nm, nt, od) in o["fields"]:
+                    offs.append((pos, od, nt))
+                    pos += od
+                vals = rows.get(o["name"], [])
+                for rec in range(o["nrec"]):
+                    for i in ix:
+                        if 0 <= i < len(offs):
+                            mwant += [fmt_api(offs[i][2], vals[rec * pos + offs[i][0] + c]) for c in range(offs[i][1])]
+            cmd = [env.hdp, "dumpvd", "-d", "-f", ",".join(sel), "-n", ",".join(o["name"] for o in vds), h]
+            rc, out, err = env.run(cmd)
+            st["commands"] += 1
+            st["vdatas"] += len(vds)
+            if len(counts) > 1:
+                st["selections_matching_different_counts"] += 1
+            ctx.case(("fields", t, tuple(sel)), True, sample={"hdp": "dumpvd -d -f " + ",".join(sel), "tokens": out.split()[:6]} if st["commands"] % 9 == 1 else None)
+            rec = "FIELDS %s\n%s# selected fields of the API read: %s\n# hdp tokens:                      %s\n# model (indices %s): %s\n" % (
+                ",".join(sel), t, " ".join(want)[:1200], " ".join(out.split())[:1200], ml[2:], " ".join(mwant)[:600])
+            if crashed(rc):
+                ctx.violation("hdp dumpvd -f crashed (rc=%d)" % rc, rec, found=True)
+            elif out.split() != want:
+                ctx.violation("hdp dumpvd -f %s prints other values than the selected fields hold" % ",".join(sel), rec, found=True)
+            elif mwant != want:
+                soft(ctx, "hdp dumpvd -f agrees with the API but not with fields_walk", rec)
+            if len(ctx.violations) >= 4:
+                return
+    ctx.corr("hdp-dumpvd-f~selected-columns~fields_walk", **st)
 
 
 # ---- objects above the tools' transfer buffers ---------------------------------------------------------
@@ -885,6 +1089,28 @@ IMP_KINDS = [("text", "INT8"), ("text", "INT16"), ("text", "INT32"), ("text", "F
              ("bin", "IN08"), ("bin", "IN16"), ("bin", "IN32"), ("bin", "FP32"), ("bin", "FP64"), ("bin", "FP64as32")]
 
 
+def spell_int(x, r):
+    """a spelling of the integer x that fscanf %d reads as x: plain, zero-padded (0012, -088, 008), explicit sign"""
+    c = r.randrange(6)
+    body = str(abs(x))
+    if c <= 1:
+        body = "0" * r.randrange(1, 4) + body
+    if x < 0:
+        return "-" + body
+    return ("+" if c == 2 else "") + body
+
+
+def spell_float(x, r):
+    c = r.randrange(6)
+    if c == 0:
+        return ("-" if x < 0 else "") + "00" + repr(abs(x))
+    if c == 1:
+        return "%.10e" % x
+    if c == 2 and x >= 0:
+        return "+" + repr(x)
+    return repr(x)
+
+
 def make_input(r, mode, ty, rank):
     """one hdfimport input file: (bytes, per-file options, expected 'nt rank dims n values')"""
     planes = r.randrange(2, 4) if rank == 3 else 1
@@ -899,11 +1125,11 @@ def make_input(r, mode, ty, rank):
             vals = [rand_val(nt, r) for _ in range(n)]
             vals[0], vals[-1] = lo, hi
             scales = [r.randrange(max(lo, -50), min(hi, 50)) for _ in range(nsc)]
-            tok = str
+            tok = lambda x: spell_int(x, r)
         else:
             vals = [dyadic(r) for _ in range(n)]
             scales = [float(i) for i in range(nsc)]
-            tok = repr
+            tok = lambda x: spell_float(x, r)
         seps = [r.choice([" ", "\n", "  ", "\t", " \n"]) for _ in range(5 + nsc + n)]
         nums = [str(planes), str(rows), str(cols)] + [tok(x) for x in (max(vals), min(vals))] + [tok(x) for x in scales] + [tok(x) for x in vals]
         data = ("TEXT" + "".join(sp + x for sp, x in zip(["\n"] + seps, nums)) + "\n").encode()
@@ -1173,6 +1399,31 @@ def replay_text(env, ctx, text, report=True):
             print("hdiff file1 file2: exit %d, specification %d" % (rc, exp))
             bad += 0 if rc == exp else 1
         return 1 if bad else 0
+    if head[0] == "FIELDS":
+        t = "\n".join(body[1:]) + "\n"
+        d, h = env.mk(t)
+        sel = head[1].split(",")
+        api = env.run([env.exe, "rd", d, h])[1]
+        want, names = [], []
+        for l in api.splitlines():
+            tk = l.split()
+            if tk and tk[0] == "V":
+                nf, nrec = int(tk[3]), int(tk[2])
+                flds = [(tk[4 + 3 * j], int(tk[5 + 3 * j]), int(tk[6 + 3 * j])) for j in range(nf)]
+                vals = list(map(int, tk[5 + 3 * nf:]))
+                per = sum(od for (_, _, od) in flds)
+                names.append(tk[1])
+                for rec in range(nrec):
+                    pos = 0
+                    for (nm, nt, od) in flds:
+                        if nm in sel:
+                            want += [fmt_api(nt, vals[rec * per + pos + c]) for c in range(od)]
+                        pos += od
+        rc, out, err = env.run([env.hdp, "dumpvd", "-d", "-f", ",".join(sel), "-n", ",".join(names), h])
+        ok = out.split() == want
+        print("hdp dumpvd -d -f %s: rc=%d %s\n  hdp tokens     : %s\n  selected fields: %s" % (
+            ",".join(sel), rc, "agrees" if ok else "DIFFERS", " ".join(out.split())[:1500], " ".join(want)[:1500]))
+        return 0 if ok else 1
     if head[0] == "DUMP":
         t = "\n".join(body[1:]) + "\n"
         d, h = env.mk(t)
@@ -1238,11 +1489,16 @@ def run(ctx):
             dumps = check_hd(env, ctx)
             if len(ctx.violations) < 4:
                 check_dump(env, ctx, dumps)
+            if len(ctx.violations) < 4:
+                check_fields(env, ctx, dumps)
         if len(ctx.violations) < 4:
             check_imp(env, ctx)
         check_pos(env, ctx)
         if len(ctx.violations) < 4:
+            check_mixed(env, ctx)
+        if len(ctx.violations) < 4:
             check_many(env, ctx)
+        check_interlace(env, ctx)
         if len(ctx.violations) < 4:
             check_large(env, ctx)
         check_strip(env, ctx)
